@@ -16,8 +16,8 @@ EXPLANATION = (
     "through the image triple and preserve sides; inversion is an involution independent of the square root, negates the "
     "cross-ratio (complement lies on the other side, complement twice is the identity); the mask plumbing of contains/intersects "
     "gives every pair its case-table answer (elementwise with NumPy's mask-assignment semantics, pairwise), with the pinned "
-    "intersects proved wrong.  PARTIAL: that the case-table inequalities characterise set containment/intersection is tested "
-    "(sampled set-theoretic reference), not proved.  Exact Q(i) correspondence of every formula + float oracles.")
+    "intersects proved wrong; the case table is proved to be the set-theoretic answer for circles in general position "
+    "(contains_logic / intersects_logic).  Fubini-Study constructions are oracle-tested only.  Exact Q(i) correspondence of every formula + float oracles.")
 ASSUMPTIONS = [
     "Fubini-Study constructions (QR factorisation, cos/sin/arctan/tan) are oracle-tested only",
     "general position: margins >= 0.1 between circles in the containment/intersection reference",
@@ -496,6 +496,19 @@ def run_dsk(inp):
         cc, cr = comp.circle_parameters()
         res["complement_circle"] = max(err(np.asarray(cc, float), np.stack([c.real, c.imag], -1)), err(np.asarray(cr, float), r))
         res["complement_unbounded"] = 0.0 if not np.any(comp.center_inside()) else 1.0
+        # the complement reports its own Fubini-Study centre (boundary FS-equidistant from it) and diameter (pi - the disk's)
+        cfc = np.asarray(comp.fs_center().proj_data, complex).reshape(len(c), 2)
+        cfd = np.asarray(comp.fs_diameter(), float)
+        res["complement_fs_diameter"] = err(cfd, math.pi - fd2)
+        def _aff(pz):
+            return None if abs(pz[0]) < 1e-12 * max(1.0, abs(pz[1])) else pz[1] / pz[0]
+        res["complement_fs_centre"] = max(abs(fs_dist(b, _aff(cc)) - f / 2) for row, cc, f in zip(bd2, cfc, cfd) for b in row)
+        # the same disk from other centre coordinates
+        sph = np.asarray(CP.CP1Point(c, coords="cx_affine").spherical_coords(), float)
+        for cname, cdat in (("spherical", sph), ("real_affine", np.stack([c.real, c.imag], -1))):
+            dd = CP.CP1Disk(cdat, r, center_coords=cname)
+            cc_, rr_ = dd.circle_parameters()
+            res["centre_coords_" + cname] = max(err(np.asarray(cc_, float), np.stack([c.real, c.imag], -1)), err(np.asarray(rr_, float), r))
         c2 = comp.complement()
         res["complement_twice"] = 0.0 if proj_close(c2.proj_data, d.proj_data, 1e-8) and np.all(c2.center_inside()) else 1.0
     return res
@@ -581,6 +594,181 @@ def judge_rel_oracle(inp, obs, lr):
     return None
 
 
+# ------------------------------------------------------------------------------------------------
+# S2d: the Fubini-Study constructor, QR factors observed (numpy.linalg.qr wrapped inside this process only)
+# ------------------------------------------------------------------------------------------------
+def gen_fs(rng, n):
+    for _ in range(n):
+        yield {"c": [rng.uniform(-3, 3), rng.uniform(-3, 3)] if rng.random() > 0.1 else [0.0, 0.0], "rad": rng.uniform(0.05, 0.7)}
+
+
+def run_fs(inp):
+    seen = {}
+    orig = np.linalg.qr
+    def spy(a, *args, **kw):
+        q, r = orig(a, *args, **kw)
+        seen["q"], seen["r"] = np.array(q), np.array(r)
+        return q, r
+    np.linalg.qr = spy
+    try:
+        d = CP.CP1Disk(np.array([complex(*inp["c"])]), np.array([inp["rad"]]), radius_metric="fs")
+    finally:
+        np.linalg.qr = orig
+    q, r = seen["q"].reshape(3, 3), seen["r"].reshape(3, 1)
+    sph = np.asarray(d.boundary_points().spherical_coords(), float).reshape(3, 3)
+    ctr = np.asarray(CP.CP1Point(np.array([complex(*inp["c"])]), coords="cx_affine").spherical_coords(), float).reshape(3)
+    return {"q": q.tolist(), "r00": float(r[0, 0]), "c2": float(np.cos(2 * inp["rad"])), "s2": float(np.sin(2 * inp["rad"])),
+            "sph": sph.tolist(), "ctr": ctr.tolist(),
+            "contract": max(err(q.T @ q, np.eye(3)), err(q[:, 0] * r[0, 0], ctr))}
+
+
+def lean_fs(inp, obs):
+    if "exc" in obs:
+        return []
+    q = np.array(obs["q"])
+    return [{"op": "c20.fs_boundary", "q0": [Q.qs(x) for x in q[:, 0]], "q1": [Q.qs(x) for x in q[:, 1]], "q2": [Q.qs(x) for x in q[:, 2]],
+             "r00": Q.qs(obs["r00"]), "c2": Q.qs(obs["c2"]), "s2": Q.qs(obs["s2"])}]
+
+
+def judge_fs(inp, obs, lr):
+    if "exc" in obs:
+        return {"expected": "fs disk", "observed": obs, "tags": {"exc": obs["exc"]}, "property_failure": True}
+    if not (obs["contract"] <= 1e-9):
+        return {"expected": "QR contract (q orthogonal, q0*r00 = centre)", "observed": obs["contract"], "tags": {"what": "qr contract"}}
+    if "err" in lr[0]:
+        return {"expected": "model answer", "observed": lr[0], "tags": {"driver_err": lr[0]["err"]}}
+    mv = Q.decf(lr[0]["ok"])
+    if not close(obs["sph"], mv, 1e-9):
+        return {"expected": {"model": mv.tolist()}, "observed": obs["sph"], "tags": {"what": "fs boundary"}}
+    return None
+
+
+# ------------------------------------------------------------------------------------------------
+# S3e: query / edit histories, tiny and huge overall scales, every way of specifying the centre
+# ------------------------------------------------------------------------------------------------
+def gen_hist(rng, n):
+    for _ in range(n):
+        k = rng.choice([2, 3, 4])
+        mk = lambda: {"c": [rng.uniform(-3, 3), rng.uniform(-3, 3)], "r": rng.uniform(0.2, 3.0)}
+        disks = [mk() for _ in range(k)]
+        other = [mk() for _ in range(k)]
+        steps = []
+        for _s in range(rng.choice([3, 5, 7])):
+            c = rng.random()
+            if c < 0.55:
+                steps.append({"op": "query", "what": rng.choice(["circle", "contains", "intersects", "fs", "inside"])})
+            elif c < 0.8:
+                steps.append({"op": "setitem", "i": rng.randrange(k), "disk": mk(), "complement": rng.random() < 0.3})
+            else:
+                steps.append({"op": "inplace", "i": rng.randrange(k), "disk": mk()})
+        steps.append({"op": "query", "what": "circle"})
+        steps.append({"op": "query", "what": rng.choice(["contains", "intersects", "fs"])})
+        yield {"disks": disks, "other": other, "steps": steps, "scale": [math.exp(rng.uniform(-28, 28)), rng.uniform(0, 2 * math.pi)],
+               "M": [[rng.gauss(0, 1), rng.gauss(0, 1)] for _ in range(4)], "fs_r": rng.uniform(0.05, 0.7),
+               "hom": [rng.gauss(0, 1) or 1.0, rng.gauss(0, 1)]}
+
+
+def _arr_disk(ds):
+    return CP.CP1Disk(np.array([complex(*d["c"]) for d in ds]), np.array([d["r"] for d in ds]))
+
+
+def _query(D_, O_, what):
+    """answers of the (possibly stale) object D_"""
+    if what == "circle":
+        c, r = D_.circle_parameters()
+        return np.concatenate([np.asarray(c, float).reshape(-1), np.asarray(r, float).reshape(-1)])
+    if what == "inside":
+        return np.asarray(D_.center_inside(), float)
+    if what == "contains":
+        return np.asarray(D_.contains(O_, broadcast="pairwise"), float).reshape(-1)
+    if what == "intersects":
+        return np.asarray(D_.intersects(O_, broadcast="pairwise"), float).reshape(-1)
+    if what == "fs":
+        return np.concatenate([np.asarray(D_.fs_diameter(), float).reshape(-1),
+                               np.abs(np.asarray(D_.fs_center().spherical_coords(), float)).reshape(-1) * 0 +
+                               np.asarray(D_.fs_center().spherical_coords(), float).reshape(-1)])
+
+
+def run_hist(inp):
+    res = {}
+    D_ = _arr_disk(inp["disks"])
+    O_ = _arr_disk(inp["other"])
+    worst = 0.0
+    where = None
+    for n_, st in enumerate(inp["steps"]):
+        if st["op"] == "query":
+            got = _query(D_, O_, st["what"])
+            fresh = CP.CP1Disk(np.array(D_.proj_data, copy=True))          # the same data in a brand-new object
+            want = _query(fresh, _arr_disk(inp["other"]), st["what"])
+            e = err(got, want)
+            if e > worst:
+                worst, where = e, [n_, st["what"]]
+        elif st["op"] == "setitem":
+            nd = CP.CP1Disk(np.array([complex(*st["disk"]["c"])]), np.array([st["disk"]["r"]]))
+            if st["complement"]:
+                nd = nd.complement()
+            D_[st["i"]] = nd[0]
+        else:
+            nd = CP.CP1Disk(np.array([complex(*st["disk"]["c"])]), np.array([st["disk"]["r"]]))
+            D_.proj_data[st["i"]] = nd.proj_data[0]
+    res["history"] = worst
+    res["history_where"] = where
+    # overall scales: points, disks and matrices multiplied by tiny / huge complex scalars describe the same objects
+    sc = inp["scale"][0] * cmath.exp(1j * inp["scale"][1])
+    D0 = _arr_disk(inp["disks"])
+    M = np.array([[complex(*inp["M"][0]), complex(*inp["M"][1])], [complex(*inp["M"][2]), complex(*inp["M"][3])]])
+    if abs(np.linalg.det(M)) > 0.2:
+        a = P.Transformation(M) @ D0
+        b = P.Transformation(M * sc) @ D0
+        c_ = CP.CP1Disk(np.array(D0.proj_data) * sc)
+        pa, pb = a.circle_parameters(), b.circle_parameters()
+        res["scale_matrix_circle"] = max(err(np.asarray(pb[0], float), np.asarray(pa[0], float)), err(np.asarray(pb[1], float), np.asarray(pa[1], float)))
+        res["scale_matrix_inside"] = float(np.sum(a.center_inside() != b.center_inside()))
+        pc = c_.circle_parameters()
+        p0 = D0.circle_parameters()
+        res["scale_data_circle"] = max(err(np.asarray(pc[0], float), np.asarray(p0[0], float)), err(np.asarray(pc[1], float), np.asarray(p0[1], float)))
+        res["scale_data_inside"] = float(np.sum(c_.center_inside() != D0.center_inside()))
+        pts = CP.CP1Point(np.array([complex(*d["c"]) for d in inp["disks"]]), coords="cx_affine")
+        res["scale_point_spherical"] = err(np.asarray(CP.CP1Point(pts.proj_data * sc).spherical_coords(), float), np.asarray(pts.spherical_coords(), float))
+        res["scale_point_chart"] = float(np.sum(CP.CP1Point(pts.proj_data * sc).in_affine_chart(0) != pts.in_affine_chart(0)))
+    # every way of specifying the centre x both radius metrics
+    c = np.array([complex(*d["c"]) for d in inp["disks"]])
+    r = np.array([d["r"] for d in inp["disks"]])
+    fr = np.full(len(c), inp["fs_r"])
+    h = complex(*inp["hom"])
+    cpt = CP.CP1Point(c, coords="cx_affine")
+    moved = P.Transformation(M) @ cpt if abs(np.linalg.det(M)) > 0.2 else cpt
+    moved_aff = np.asarray(moved.affine_coords(), complex).reshape(-1)
+    variants = {
+        "cx_affine": (c, "cx_affine", c),
+        "real_affine": (np.stack([c.real, c.imag], -1), "real_affine", c),
+        "spherical": (np.asarray(cpt.spherical_coords(), float), "spherical", c),
+        "projective": (np.stack([np.full(len(c), h), h * c], -1), "projective", c),
+        "CP1Point": (cpt, "projective", c),
+        "CP1Point_moved": (moved, "projective", moved_aff),
+    }
+    for nm, (data, cc, centre) in variants.items():
+        d1 = CP.CP1Disk(data, r, center_coords=cc)
+        c1, r1 = d1.circle_parameters()
+        res["centre_%s_affine" % nm] = max(err(np.asarray(c1, float), np.stack([centre.real, centre.imag], -1)), err(np.asarray(r1, float), r))
+        d2 = CP.CP1Disk(data, fr, center_coords=cc, radius_metric="fs")
+        fc = np.asarray(d2.fs_center().affine_coords(), complex).reshape(-1)
+        res["centre_%s_fs" % nm] = max(max(fs_dist(x, y) for x, y in zip(fc, centre)), err(np.asarray(d2.fs_diameter(), float), 2 * fr))
+    return res
+
+
+def judge_hist(inp, obs, lr):
+    if "exc" in obs:
+        return {"expected": "history runs", "observed": obs, "tags": {"exc": obs["exc"]}}
+    for k, v in obs.items():
+        if k == "history_where":
+            continue
+        if not (v <= 1e-6):
+            return {"expected": "%s residual <= 1e-6" % k, "observed": {"residual": v, "where": obs.get("history_where") if k == "history" else None},
+                    "tags": {"what": k}}
+    return None
+
+
 CLAUSES = [
     Clause("spherical_corr", "corr", gen_sph, run_sph, judge_sph, lean=lean_sph, site="complex_projective.projective_to_spherical / spherical_to_projective",
            budget={"quick": 150, "thorough": 3000},
@@ -591,12 +779,18 @@ CLAUSES = [
     Clause("relations_corr", "corr", gen_rel, run_rel, judge_rel, lean=lean_rel, site="complex_projective.CP1Disk.contains / intersects",
            budget={"quick": 150, "thorough": 3000},
            what="contains/intersects, elementwise and pairwise, all bounded/unbounded combinations, vs the model's mask plumbing fed with the implementation's center_inside and disk_interactions tables"),
+    Clause("fs_corr", "corr", gen_fs, run_fs, judge_fs, lean=lean_fs, site="complex_projective.CP1Disk._compute_proj_data(radius_metric='fs')",
+           budget={"quick": 60, "thorough": 1500},
+           what="the three spherical boundary points of CP1Disk(c, rad, 'fs') vs fsBoundary fed with the observed QR factors (numpy.linalg.qr wrapped in-process) and cos/sin(2 rad); QR contract residual"),
     Clause("points_oracle", "oracle", gen_pt, run_pt, judge_pt, site="complex_projective.CP1Point",
            budget={"quick": 200, "thorough": 5000},
            what="float points incl. 0 and infinity: |s|=1, p2s∘s2p, s2p∘p2s (projectively), agreement with stereographic projection, cx_affine / real_affine constructors"),
     Clause("disk_oracle", "oracle", gen_dsk, run_dsk, judge_dsk, site="complex_projective.CP1Disk",
            budget={"quick": 80, "thorough": 2000},
            what="disk reports centre and radius (affine and Fubini-Study); Moebius image bounded by the image circle on the side of the image interior point (40 sample points, disk and complement); complement flips membership, twice = identity"),
+    Clause("history_oracle", "oracle", gen_hist, run_hist, judge_hist, site="complex_projective.CP1Disk (queries, edits, scales, centre specifications)",
+           budget={"quick": 60, "thorough": 1500},
+           what="histories: circle_parameters / center_inside / contains / intersects / fs_* queried between item assignments (disks[i] = ...) and in-place writes, each answer vs a fresh object on the same data; overall complex scales 1e-12..1e12 of matrices, disk data and points; centre given as cx_affine / real_affine / spherical / non-normalised projective / CP1Point / Moebius image of a CP1Point x affine and Fubini-Study radius"),
     Clause("relations_oracle", "oracle", gen_rel_oracle, run_rel_oracle, judge_rel_oracle, site="complex_projective.CP1Disk.contains / intersects",
            budget={"quick": 60, "thorough": 1500},
            what="contains / intersects vs a sampled set-theoretic reference (infinity, 1500 uniform sphere points, line of centres, both circles +-3%) in all four bounded/unbounded combinations, elementwise and pairwise"),
